@@ -100,9 +100,10 @@ def _ax():
                            [umember(Union_(sq), m)]))
     ax("Union-member-intro", L.FA([sq, i, m], z3.Implies(z3.And(0 <= i, i < L.len_(sq), umember(L.nth(sq, i), m)), umember(Union_(sq), m)),
                                 [(Union_(sq), umember(L.nth(sq, i), m))]))
-    ax("Union-single", L.FA([sq, m], z3.Implies(z3.And(L.len_(sq) >= 1, kind(m) != K["Union"],
-                                                         L.FA(i, z3.Implies(z3.And(0 <= i, i < L.len_(sq)), L.nth(sq, i) == m))),
-                                                  Union_(sq) == m), [(Union_(sq), kind(m))]))
+    # (stated on the first element: a trigger pairing Union_(sq) with every kind(m) term instantiates quadratically)
+    ax("Union-single", L.FA([sq], z3.Implies(z3.And(L.len_(sq) >= 1, kind(L.nth(sq, 0)) != K["Union"],
+                                                      L.FA(i, z3.Implies(z3.And(0 <= i, i < L.len_(sq)), L.nth(sq, i) == L.nth(sq, 0)))),
+                                               Union_(sq) == L.nth(sq, 0)), [Union_(sq)]))
     # a type with one alternative is that alternative; a Union_ result with >= 2 distinct alternatives has kind Union
     ax("Union-kind", L.FA([sq, a, b], z3.Implies(z3.And(L.len_(sq) >= 1, umember(Union_(sq), a), umember(Union_(sq), b), a != b),
                                                   kind(Union_(sq)) == K["Union"]), [(umember(Union_(sq), a), umember(Union_(sq), b))]))
